@@ -148,7 +148,7 @@ theorem fSubUlp_le (E : Env) (h : DlbSound E.B E.est.dlb) (x : FBigM) :
 theorem expBody_flag (fuel : Nat) (E : Env) (p : Nat) (x : FRepr) (minusOne : Bool)
     (v : FBigM) (fl : Option Rounding) (tr : Trace)
     (h : expBody fuel E p x minusOne = .ok ((v, fl), tr)) : fl ≠ none := by
-  unfold expBody at h
+  unfold expBody expTail at h
   simp only [bind, Except.bind, pure, Except.pure] at h
   repeat' split at h
   all_goals (try (simp at h))
@@ -199,7 +199,7 @@ theorem fShl_prec (x : FBigM) (k : Int) : (fShl x k).prec = x.prec := by
 theorem expBody_prec (fuel : Nat) (E : Env) (p : Nat) (x : FRepr) (minusOne : Bool)
     (v : FBigM) (fl : Option Rounding) (tr : Trace)
     (h : expBody fuel E p x minusOne = .ok ((v, fl), tr)) : v.prec = p := by
-  unfold expBody at h
+  unfold expBody expTail at h
   simp only [bind, Except.bind, pure, Except.pure] at h
   repeat' split at h
   all_goals (try (simp at h))
